@@ -8,6 +8,7 @@ INVARIANT TypeOK
 INVARIANT ResultIsRequested
 INVARIANT NeverGarbage
 INVARIANT RejectIffNotCovered
+INVARIANT OtherL0Rejected
 INVARIANT BoundedKdf
 INVARIANT CountersInLattice
 PROPERTY StepsAreEdges
